@@ -62,6 +62,16 @@ Record ospec := {
 
 Definition reg_of (s : ospec) (t : nat) : list (nat * hspec) :=
   match assoc_get (o_reg s) t with Some l => l | None => [] end.
+(* a once-handler is claimed (and later retired) by the publishing goroutine before the handler itself is entered -
+   for an async one possibly long before: from the moment a publish has fixed a snapshot containing it, it may be gone *)
+Definition maybe_fired (s : ospec) (rid : nat) : bool :=
+  memb rid (o_fired s) ||
+  existsb (fun pr => match op_snap (snd pr) with
+                     | Some sn => existsb (fun rh => Nat.eqb (fst rh) rid && h_once (snd rh)) sn
+                     | None => false end) (o_pubs s).
+Definition definite_now (s : ospec) (t : nat) : list (nat * hspec) :=
+  filter (fun rh => negb (maybe_fired s (fst rh))) (reg_of s t).
+(* at the end of a finished run every claim has become an entry *)
 Definition definite (s : ospec) (t : nat) : list (nat * hspec) :=
   filter (fun rh => negb (memb (fst rh) (o_fired s))) (reg_of s t).
 
@@ -113,7 +123,7 @@ Definition apply_action (P : program) (s : ospec) (i : nat) (w : who) (a : actio
         match remove_first_fn' (reg_of s t) fn with
         | None => check (Nat.eqb r 0) s i
         | Some (rid, rest) =>
-          if memb rid (o_fired s) then
+          if maybe_fired s rid then
             (* the first match is a fired once-handler that may or may not have been retired yet *)
             {| o_reg := assoc_set (o_reg s) t rest; o_next_rid := o_next_rid s; o_next_pid := o_next_pid s;
                o_pubs := o_pubs s; o_cancel_step := o_cancel_step s; o_filtered := o_filtered s; o_entered := o_entered s;
@@ -132,14 +142,14 @@ Definition apply_action (P : program) (s : ospec) (i : nat) (w : who) (a : actio
       match first_res a em with
       | None => s
       | Some r => if o_vague s then s else
-          check (if Nat.ltb 0 (length (definite s t)) then Nat.eqb r 1
+          check (if Nat.ltb 0 (length (definite_now s t)) then Nat.eqb r 1
                  else if Nat.eqb (length (reg_of s t)) 0 then Nat.eqb r 0 else true) s i
       end
   | ACount t =>
       match first_res a em with
       | None => s
       | Some r => if o_vague s then s else
-          check (Nat.leb (length (definite s t)) r && Nat.leb r (length (reg_of s t))) s i
+          check (Nat.leb (length (definite_now s t)) r && Nat.leb r (length (reg_of s t))) s i
       end
   | ACancel c =>
       match assoc_get (o_cancel_step s) c with
